@@ -14,7 +14,7 @@ theorem leBytes_length (k n : Nat) : (leBytes k n).length = k := by
   | zero => rfl
   | succ k ih => simp [leBytes, ih]
 
-theorem ofLeBytes_leBytes (k n : Nat) : ofLeBytes (leBytes k n) = n % 256 ^ k := by
+theorem ofLeBytes_leBytes_modk (k n : Nat) : ofLeBytes (leBytes k n) = n % 256 ^ k := by
   induction k generalizing n with
   | zero => simp [leBytes, ofLeBytes, Nat.mod_one]
   | succ k ih =>
@@ -41,7 +41,7 @@ theorem ofLeBytes_inj {a b : List Byte} (hl : a.length = b.length)
 /-- a `w`-bit checksum fits in `nbytes` bytes when `w ≤ 8 * nbytes`. -/
 theorem ofLeBytes_leBytes_bv {w : Nat} (nbytes : Nat) (x : BitVec w) (hfit : w ≤ nbytes * 8) :
     ofLeBytes (leBytes nbytes x.toNat) = x.toNat := by
-  rw [ofLeBytes_leBytes]
+  rw [ofLeBytes_leBytes_modk]
   apply Nat.mod_eq_of_lt
   have h1 : x.toNat < 2 ^ w := x.isLt
   have h2 : 2 ^ w ≤ 2 ^ (nbytes * 8) := Nat.pow_le_pow_right (by decide) hfit
